@@ -18,6 +18,7 @@ import (
 	"bytes"
 	"fmt"
 	"go/format"
+	"go/token"
 	"go/types"
 	"strconv"
 	"strings"
@@ -162,21 +163,30 @@ func (tm *typesMap) newName(typs []types.Type) string {
 	}
 	i := 0
 	funcName := tm.prefix
-	_, exists := tm.funcToTyps[funcName]
-	_, isreserved := tm.reserved[funcName]
 	// The name is extended letter by letter: cutting it at a byte offset could split a multi-byte letter.
 	letters := []rune(name)
-	for exists || isreserved {
+	for tm.taken(funcName) {
 		if i > len(letters) {
 			funcName = tm.prefix + "_" + name + strconv.Itoa(i)
 		} else {
 			funcName = tm.prefix + "_" + string(letters[:i])
 		}
 		i++
-		_, exists = tm.funcToTyps[funcName]
-		_, isreserved = tm.reserved[funcName]
 	}
 	return funcName
+}
+
+// taken returns whether a new function cannot be given this name:
+// it is the name of a function of this plugin or of the user,
+// or a customised prefix, which is only the start of a name, is by itself a keyword or a predeclared identifier.
+func (tm *typesMap) taken(funcName string) bool {
+	if _, exists := tm.funcToTyps[funcName]; exists {
+		return true
+	}
+	if _, isreserved := tm.reserved[funcName]; isreserved {
+		return true
+	}
+	return token.IsKeyword(funcName) || types.Universe.Lookup(funcName) != nil
 }
 
 func eq(this, that []types.Type) bool {
